@@ -13,7 +13,7 @@ import random
 from props import common
 from props.common import call, num_close, sig
 from vlib import bridge, dom_cfg, engine
-from vlib.spec import cfgspec
+from vlib.spec import cfgspec, fastops
 
 ID = "C06"
 LEVEL = "other"
@@ -33,8 +33,8 @@ def OB(method, kind="preserves-language"):
 def make_cases(tier, seed, n_random=None, n_productive=None, maxlen=None):
     rng = random.Random(seed)
     quick = tier == "quick"
-    n_random = (60 if quick else 1200) if n_random is None else n_random
-    n_productive = (70 if quick else 1800) if n_productive is None else n_productive
+    n_random = (60 if quick else 300) if n_random is None else n_random
+    n_productive = (70 if quick else 500) if n_productive is None else n_productive
     maxlen = (4 if quick else 5) if maxlen is None else maxlen
     doms = dom_cfg.cfg_domain(tier, seed, n_random, n_productive)
     srs = SEMIRINGS_QUICK if quick else SEMIRINGS_THOROUGH
@@ -61,8 +61,11 @@ def make_cases(tier, seed, n_random=None, n_productive=None, maxlen=None):
 
 
 def _close(a, b, slack):
-    if num_close(a, b):
-        return True
+    try:
+        if num_close(a, b):
+            return True
+    except OverflowError:               # a Fraction beyond the float range (only a broken transformation produces one)
+        return False
     if slack and not isinstance(a, bool) and not isinstance(b, bool):
         try:
             return abs(float(a) - float(b)) <= slack
@@ -85,6 +88,7 @@ def check_case(case):
     gs = bridge.spec_grammar(g, sr)
     xs = cfgspec.strings_upto(g.V, case["maxlen"])
     out = dict(n=0, keys=[], violations=[], undecided=[])
+    ops = fastops.fast(ops)      # same semiring, cheaper zero test (validated by fastops.selfcheck)
     try:
         res = {x: cfgspec.cfg_weight(ops, gs, x) for x in xs}
     except ArithmeticError:
@@ -93,19 +97,26 @@ def check_case(case):
     if sr in ("FloatFrac", "Q") and not all(ex for _, ex in res.values()):
         # nonlinear nullable block: the library's fixed-point iteration would square Fraction denominators
         sr = "Float"
-        R, ops, conv, val = bridge.SEMIRINGS[sr]
+        R, _, conv, val = bridge.SEMIRINGS[sr]
+    ops_out = fastops.fast(bridge.SEMIRINGS[sr][1], floats=sr in ("Float", "Real"))   # output snapshots carry machine floats
     nontrivial = any(not ops.is_zero(w) for w in want.values())
     desc = dict(grammar=bridge.fmt_grammar(g), semiring=sr)
 
     def viol(ob, what, chain, **kw):
+        # failing input class: a name clash is one class per (function, semiring) whatever chain/instance exposes it;
+        # everything else is identified by chain, failure kind, instance and semiring
+        if what.startswith("name-clash"):
+            signature = sig(ob.split("/")[1], "name-clash", sr)
+        else:
+            signature = sig("->".join(chain), what.split(":")[0], case["name"], sr)
         out["violations"].append(dict(
-            obligation=ob, what=what, signature=sig("->".join(chain), what.split(":")[0], case["name"], sr),
+            obligation=ob, what=what, signature=signature,
             replay=dict(desc, chain=list(chain), **{k: repr(v) for k, v in kw.items()},
                         case=common.enc(dict(case, chains=[tuple(chain)], singles=[])))))
 
     def language(cfg):
         snap = bridge.from_cfg(cfg, val)
-        return {x: cfgspec.cfg_weight(ops, snap, x)[0] for x in xs}
+        return {x: cfgspec.cfg_weight(ops_out, snap, x)[0] for x in xs}
 
     # trie of chains: each prefix of a chain is applied once; objects are shared along a path as a user would
     singles = case.get("singles", True)
@@ -204,4 +215,5 @@ def run(run, only=None):
 
 
 def replay(doc):
-    return common.generic_replay(doc, check_case)
+    rc = dom_cfg.replay_with_hashseed(doc, "props.C06")      # same PYTHONHASHSEED as the run that found it
+    return common.generic_replay(doc, check_case) if rc is None else rc
